@@ -121,8 +121,11 @@ class DiameterAssociation(object):
 
 
     def is_connected(self) -> bool:
-        if self.transport:
-           return self.transport.is_connected
+        #: close() resets the transport from the state machine thread while
+        #: an application thread may be asking: look at it once.
+        transport = self.transport
+        if transport:
+           return transport.is_connected
         
         return False
 
